@@ -12,7 +12,7 @@ n = 0
 for f in sorted(RES.glob("*.json")):
     d = json.loads(f.read_text())
     seed = pathlib.Path(d["seed"])
-    m = re.search(r"ref([2345]?)_(C\d+)_out/(\d)$", str(seed))
+    m = re.search(r"ref([23456]?)_(C\d+)_out/(\d)$", str(seed))
     if not m:
         continue
     k = int(m.group(3)) + (4 * (int(m.group(1)) - 1) if m.group(1) else 0)
